@@ -1561,12 +1561,12 @@ def dict_method(interp, ref, o: HDict, name, args, kwargs, node):
         return args[1] if len(args) > 1 else Sym(("pop", ("dict", ref.oid), desc(args[0])))
     if name == "setdefault":
         ck = interp.dict_key(args[0])
-        if ck is not None:
+        if ck is not None and (ck[1] in o.entries or not (o.sym or o.each)):
             if ck[1] not in o.entries:
                 o.entries[ck[1]] = args[1] if len(args) > 1 else Const(None)
                 interp.log("dict.set", node, obj=ref, key=args[0], value=o.entries[ck[1]])
             return o.entries[ck[1]]
-        # a computed key: `if k not in d: d[k] = default` followed by `d[k]`, decided like the statements would be
+        # a computed key, or a literal key of a mapping with content the analysis does not know: `if k not in d: d[k] = default` followed by `d[k]`, decided like the statements would be
         key = args[0]
         present = interp.decide_pred(interp.contains(ref, key, node))
         if not present:
